@@ -607,3 +607,28 @@ def _render_instances(m):
 CUSTOM['pane.errors:render.bounded'] = _render_instances
 TYPES.extend([t.Union[PAlias, int], t.Union[t.Annotated[int, Condition(raising_pred, 'raising')], str], t.List[t.Union[PAlias, PReq]]])
 VALUES.extend([{'W': 1, 'width': 2}, [{'W': 1, 'width': 2}], [{'n': 'x'}]])
+
+
+# ---- further pool entries: unions typing cannot flatten, overlapping tuple members, handler normalisation ---------------------
+from pane.types import ValueOrList
+TYPES.extend([t.Optional[ValueOrList[int]], t.Union[str, t.Annotated[t.Union[int, float], Positive]],
+              t.Union[t.Tuple[fractions.Fraction, int], t.Tuple[int, fractions.Fraction]], t.List[t.Any], t.Dict[str, t.Any], t.Set[Color],
+              t.Union[Color, float]])
+VALUES.extend([['1/2', 3], [3, '1/2'], (fractions.Fraction(1, 2), 3), (3, fractions.Fraction(1, 2)), [[1, 2], 'x'], -3, 2.5, {'a': [1, {'b': 2}]}])
+
+
+class _Dbl(C.ScalarConverter):
+    def __init__(self):
+        super().__init__(int, int, 'an int', 'ints', lambda v: v * 2)
+
+
+def _process_handler_instances(m):
+    conv = _Dbl()
+    out = []
+    for h in (None, {int: conv}, {list: conv, tuple: conv}, [_h1, _h2], (_h1,), _h1, {}):
+        out.append((m.ConverterHandlers._process, ['handlers'], (h,), f'ConverterHandlers._process({h!r})'))
+    return out
+
+
+CUSTOM['pane.convert:ConverterHandlers._process'] = _process_handler_instances
+HANDLER_SETS.append(ConverterHandlers.make({list: _Dbl(), int: _Dbl()}))
